@@ -1,4 +1,5 @@
 import RSocketModel.Proofs.C04Lemmas
+import RSocketModel.Codec
 /-!
 # C04 — Decoded frames are independent of how the byte stream is chunked
 
@@ -75,3 +76,34 @@ example : ∃ c₁ c₂ : List Bytes, c₁ ≠ c₂ ∧ c₁.flatten = c₂.flat
   ⟨[[0,0,2,1,2,0],[0,1,3]], [[0,0,2,1,2,0,0,1,3]], by decide, by decide, by decide⟩
 
 end RSocketModel.Parser
+
+namespace RSocketModel.Codec
+
+/-! ### "Each message yields exactly the frame it contains": present-but-empty metadata
+
+A frame may carry the METADATA flag with a zero-length metadata block (what other implementations
+put on the wire for empty metadata; this library's own encoder clears the flag instead). It is the
+same frame as the unflagged form: the three length bytes are consumed, the data starts behind them. -/
+
+theorem readMetadata_empty_block (rest : Bytes) :
+    readMetadata true ((0 : UInt8) :: 0 :: 0 :: rest) = readMetadata false rest := by
+  simp [readMetadata, readBE, beVal, bind, R.bind, pure]
+
+/-- Request-response, fire-and-forget and payload frames (metadata right behind the header). -/
+theorem c04_empty_metadata_block_same_frame (h : Header) (hty : h.ty = 4 ∨ h.ty = 5 ∨ h.ty = 10) (rest : Bytes) :
+    parseBody { h with m := true } ((0 : UInt8) :: 0 :: 0 :: rest) = parseBody { h with m := false } rest := by
+  rcases hty with e | e | e <;> simp [parseBody, e, readMetadata_empty_block]
+
+/-- Stream and channel requests (metadata behind the 4-byte initial request-n). -/
+theorem c04_empty_metadata_block_same_frame_n (h : Header) (hty : h.ty = 6 ∨ h.ty = 7)
+    (a b c d : UInt8) (rest : Bytes) :
+    parseBody { h with m := true } (a :: b :: c :: d :: 0 :: 0 :: 0 :: rest)
+      = parseBody { h with m := false } (a :: b :: c :: d :: rest) := by
+  rcases hty with e | e <;>
+    simp [parseBody, e, readBE, bind, R.bind, readMetadata_empty_block]
+
+/-- Non-vacuity: a PAYLOAD frame on stream 1 with NEXT, the METADATA flag, an empty metadata block and the data `ab`. -/
+example : decode [0, 0, 0, 1, 0x29, 0x20, 0, 0, 0, 0x61, 0x62] = .frame (.payload 1 false false false true [] [0x61, 0x62]) := by
+  decide
+
+end RSocketModel.Codec
